@@ -1,3 +1,4 @@
+#include <cstring>
 #include <morfuse/Common/str.h>
 #include <morfuse/Common/MEM/Memory.h>
 #include <morfuse/Container/set_generic_hash.h>
@@ -1335,7 +1336,7 @@ void base_str<CharT>::EnsureDataWritable()
     m_data = nullptr;
 
     EnsureAlloced(len + 1, false);
-    copyn(m_data->data(), olddata->data(), len + 1);
+    std::memcpy(m_data->data(), olddata->data(), (len + 1) * sizeof(CharT));
     m_data->len = len;
 
     olddata->DelRef();
@@ -1389,7 +1390,8 @@ void base_str<CharT>::EnsureAlloced(size_t amount, bool keepold)
 
     if (keepold)
     {
-        copy(newbuffer, m_data->data());
+        // the whole text with its terminator (it may contain 0 bytes after a resize)
+        std::memcpy(newbuffer, m_data->data(), (m_data->len + 1) * sizeof(CharT));
         newdata->len = m_data->len;
     }
     else
